@@ -97,6 +97,18 @@ Section Engine.
     fold_left (fun s e => snd (call_if_exists l (fst e) (snd e) s)) es st.
 
   Definition observing (a : analysis) : Prop := forall h f args, a_react a h f args = None.
+
+  (* analyses whose hooks return nothing never make the engine return a value *)
+  Lemma cie_loop_observing (l : list analysis) : Forall observing l ->
+    forall i f args st, fst (cie_loop i l f args st None) = None.
+  Proof.
+    induction l as [|a r IH]; intros Hall i f args st; [reflexivity|].
+    inversion Hall as [|a' r' Ha Hr]; subst. cbn [cie_loop].
+    destruct (delivered a f args); [rewrite Ha|]; apply IH; exact Hr.
+  Qed.
+  Lemma call_if_exists_observing (l : list analysis) f args st : Forall observing l ->
+    fst (call_if_exists l f args st) = None.
+  Proof. intros Hall. unfold call_if_exists. apply cie_loop_observing; exact Hall. Qed.
 End Engine.
 
 Arguments d_idx {V}. Arguments d_hook {V}. Arguments d_args {V}.
